@@ -62,11 +62,14 @@ package kmip
 
 //@ func newRequestPayload
 //@   ensures !mapok(operationRegistry, op) ==> typeis(r0, *UnknownPayload) && dyn(r0, *UnknownPayload) != nil && dyn(r0, *UnknownPayload).opType == op
+//@   pure
 //@ func newResponsePayload
 //@   ensures !mapok(operationRegistry, op) ==> typeis(r0, *UnknownPayload) && dyn(r0, *UnknownPayload) != nil && dyn(r0, *UnknownPayload).opType == op
+//@   pure
 //@ func (*UnknownPayload).Operation
 //@   requires pl != nil
 //@   ensures r0 == pl.opType
 //@   pure
 //@ func NewObjectForType
 //@   ensures !mapok(objectTypes, objType) ==> r0 == nil && r1 != nil
+//@   pure
